@@ -18,8 +18,19 @@ pub const ALPHABET: &[&str] = &["A", "b", "-", ":", "#", " ", "\t", "\n", "\r", 
 
 pub const WEIGHTED: &[(u32, &str)] = &[
     (20, "A"), (10, "b"), (4, "1"), (6, "-"), (12, ":"), (6, "#"), (12, " "), (4, "\t"), (16, "\n"), (4, "\r"), (3, "é"), (2, "€"), (2, "𝄞"),
-    (2, "\u{1}"), (1, "\u{7f}"), (1, "\u{a0}"), (1, "\u{2028}"), (1, "\u{85}"), (1, "\u{0}"), (1, "\u{b}"), (1, "\u{c}"), (1, "~"), (1, "!"), (1, "/"),
+    (2, "\u{1}"), (1, "\u{7f}"), (1, "\u{a0}"), (1, "\u{2028}"), (1, "\u{85}"), (1, "\u{0}"), (1, "\u{b}"), (1, "\u{c}"), (1, "~"), (1, "!"), (1, "/"), (1, "\u{feff}"), (1, "\u{200b}"),
 ];
+
+/// characters that software likes to treat specially at the very start / end of a text
+pub const EDGE_CHARS: &[&str] = &["\u{feff}", "\u{0}", "\u{200b}", "\u{2029}", "\u{1a}", "\u{fffd}", "\r", "\n", " ", "\t", "#", "-", ":"];
+
+pub fn edge_decorate(t: &mut Tape, text: String) -> String {
+    match t.below(12) {
+        0 => format!("{}{}", t.pick(EDGE_CHARS), text),
+        1 => format!("{}{}", text, t.pick(EDGE_CHARS)),
+        _ => text,
+    }
+}
 
 fn enum_len(tier: Tier) -> u32 {
     match tier {
@@ -146,7 +157,7 @@ impl PropImpl for C01 {
     }
     fn rule(&self) -> String {
         "cases are UTF-8 texts: (E) every string of length <= L over 14 character-class representatives (A b - : # SP TAB LF CR e-acute euro g-clef U+0001 DEL; L=5 quick, 7 thorough), \
-         (R) random strings over a weighted 24-symbol alphabet, (M) rendered well-formed documents with 1-8 char/line edits (insert/delete/replace/duplicate/swap/truncate/CRLF/CR). \
+         (R) random strings over a weighted 26-symbol alphabet (incl. U+FEFF, U+200B, NUL), optionally decorated with a special character at the very start or end, (M) rendered well-formed documents with 1-8 char/line edits (insert/delete/replace/duplicate/swap/truncate/CRLF/CR). \
          A case is non-trivial when it has >= 2 lines and (the tolerant reader reports an error or a character outside [A-Za-z0-9: LF] occurs); distinct by text hash, \
          random cases that also belong to the enumerated space are not counted again. label_histogram holds the (lexer mode x character class) pairs visited.".into()
     }
@@ -172,9 +183,10 @@ impl PropImpl for C01 {
             let d = doc::gen_doc(t, &doc::DocOpts::default());
             let base = d.render().text;
             let text = if t.chance(7, 8) { text::mutate(t, &base, WEIGHTED, 8) } else { base };
-            Case { text, origin: "mutated-doc" }
+            Case { text: edge_decorate(t, text), origin: "mutated-doc" }
         } else {
             let text = text::weighted_text(t, WEIGHTED, 300);
+            let text = edge_decorate(t, text);
             ctx.dup_of_enum = text::in_space(ALPHABET, 5, &text);
             Case { text, origin: "random" }
         }
